@@ -1,34 +1,14 @@
+// Command evcheck holds the check of the shuttermint event codec and of the
+// keyper's event handling (C14). Every evaluation is a call into the real
+// rolling-shutter/keyper/shutterevents, keyper/smobserver and app packages.
 package main
 
 import (
-	"fmt"
-	"math/big"
-	"time"
-
-	"github.com/ethereum/go-ethereum/common"
-	"github.com/shutter-network/rolling-shutter/rolling-shutter/keyper/shutterevents"
-
-	"verif/harness/evx"
-	abcitypes "github.com/tendermint/tendermint/abci/types"
+	"verif/report"
 )
 
 func main() {
-	t := time.Now()
-	s := evx.NewSim()
-	fmt.Println("base:", s.BaseOutcome.Class(), time.Since(t))
-	me := s.MyAddr()
-	u := s.U
-	t = time.Now()
-	o := s.Hand(evx.Dealing, shutterevents.PolyEval{Sender: u.Addrs[0], Eon: 1, Receivers: []common.Address{u.Addrs[2], me}, EncryptedEvals: [][]byte{{1}}}.MakeABCIEvent(), false)
-	fmt.Println(o.Class(), time.Since(t))
-	fmt.Println(o.Stack)
-	o = s.Hand(evx.Apologizing, shutterevents.Apology{Sender: u.Addrs[0], Eon: 1, Accusers: []common.Address{u.Addrs[2], me}, PolyEval: []*big.Int{big.NewInt(1)}}.MakeABCIEvent(), false)
-	fmt.Println(o.Class())
-	o = s.Hand(evx.Dealing, shutterevents.PolyEval{Sender: u.Addrs[0], Eon: 1, Receivers: []common.Address{u.Addrs[2], me}, EncryptedEvals: [][]byte{{1},{2}}}.MakeABCIEvent(), false)
-	fmt.Println(o.Class())
-	o = s.HandSeq(evx.Dealing, []abcitypes.Event{
-		shutterevents.BatchConfig{Keypers: u.AddrsOf([]int{0,1,2}), Threshold: 1<<63, KeyperConfigIndex: 2}.MakeABCIEvent(),
-		shutterevents.EonStarted{Eon: 2, KeyperConfigIndex: 2}.MakeABCIEvent()})
-	fmt.Println(o.Class())
-	fmt.Println(o.Stack)
+	report.Main(map[string]*report.Check{
+		"C14": c14(),
+	})
 }
